@@ -224,6 +224,16 @@ func accessPath(v ssa.Value) string {
 
 func runC30(c *Ctx) {
 	sp := "private/segment/segfetcher."
+	// The requests issued for a lookup depend on the kinds of source and destination AS
+	// as the trust store reports them NOW: neither the splitter nor the pather keeps
+	// anything from one lookup to the next (a remembered core set survives a TRC update).
+	for _, q := range []string{"(*" + sp + "MultiSegmentSplitter).Split", "(*" + sp + "Pather).GetPaths"} {
+		if fn := c.Fn(q); fn != nil {
+			w := receiverWrites(fn)
+			c.Check(len(w) == 0, "M1-no-state-between-lookups", FuncName(fn)+":receiver-not-written", fn.Pos(),
+				fmt.Sprintf("%d store(s) into the receiver's fields in the methods it reaches: %s", len(w), strings.Join(truncList(w, 3), " | ")))
+		}
+	}
 	c30Split(c, sp)
 	c30FilterRevoked(c, sp)
 	c30Build(c, sp)
